@@ -17,7 +17,8 @@ variable {w : Nat}
 theorem StepOk.refl (ps : List (Rebuild w)) (s : Rebuild w) : StepOk ps s s [] := by
   refine ⟨[], by simp, ?_⟩
   intro M0 σE σS h
-  exact Sim.nil ⟨M0, h⟩ h.tr.symm
+  refine ⟨Sim.nil ⟨M0, h⟩ h.tr.symm, ?_⟩
+  intro hb; cases hb
 
 theorem StepOk.trans {ps : List (Rebuild w)} {a b c : Rebuild w} {l1 l2 : List (Instr w)}
     (h1 : StepOk ps a b l1) (h2 : StepOk ps b c l2) : StepOk ps a c (l1 ++ l2) := by
@@ -25,9 +26,15 @@ theorem StepOk.trans {ps : List (Rebuild w)} {a b c : Rebuild w} {l1 l2 : List (
   obtain ⟨n2, e2, s2⟩ := h2
   refine ⟨n1 ++ n2, by rw [e2, e1, List.append_assoc], ?_⟩
   intro M0 σE σS h
-  refine Sim.append (s1 M0 σE σS h) ?_
-  rintro σS' σE' ⟨M0', h'⟩
-  exact s2 M0' σE' σS' h'
+  obtain ⟨hs1, hb1⟩ := s1 M0 σE σS h
+  refine ⟨Sim.append hs1 ?_, ?_⟩
+  · rintro σS' σE' ⟨M0', h'⟩
+    exact (s2 M0' σE' σS' h').1
+  · intro hb
+    rcases bad_append.1 hb with hb | ⟨σ1, he, hb⟩
+    · exact hb1 hb
+    · obtain ⟨σS', _, M0', h'⟩ := hs1.finR σ1 he
+      exact (s2 M0' σ1 σS' h').2 hb
 
 /-! ### straight-line instruction lists -/
 
@@ -54,7 +61,7 @@ theorem rebuildInsts_straight {ps : List (Rebuild w)} (l : List (Instr w)) (hl :
   | nil =>
     rw [rebuildInsts, run_pure] at hr
     cases hr
-    exact ⟨hwf, hnr, rfl, SameHdr.refl s, rfl, StepOk.refl ps s⟩
+    exact ⟨hwf, hnr, rfl, SameHdr.refl _, rfl, StepOk.refl ps _⟩
   | cons i rest ih =>
     rw [rebuildInsts, hnr] at hr
     simp only [Bool.false_eq_true, if_false] at hr
@@ -95,9 +102,10 @@ theorem pk_top {s : Rebuild w} (ps : List (Rebuild w)) (hp : s.parent = .zero) (
       · simp [pure, Except.pure] at h
 
 theorem rel_init {s : Rebuild w} (ps : List (Rebuild w)) (hp : s.parent = .zero) (hc : s.cond = none)
-    (hsh : s.shift = 0) (hpend : s.pending = []) (hwr : s.written = []) (env : Env) :
+    (hsh : s.shift = 0) (hpend : s.pending = []) (hwr : s.written = []) (hnr : s.noReturn = false)
+    (env : Env) :
     Rel s ps (fun _ => 0#w) (State.init env) (State.init env) := by
-  refine ⟨rfl, rfl, by rw [hsh]; rfl, ?_, ?_, pk_top ps hp hc⟩
+  refine ⟨rfl, rfl, by rw [hsh]; rfl, hnr, ?_, ?_, pk_top ps hp hc⟩
   · rw [hpend]; simp
   · intro v
     rw [hwr]
@@ -209,8 +217,9 @@ theorem rebuild_straightline {b : Block w} (hb : StraightLine b) (prevAnal : Opt
       by rw [f8, f9]; exact this.revOk⟩
   obtain ⟨_, _, _, _, _, new, hnew, hsim⟩ := rebuildInsts_straight b.insts hb hwf0 (by rw [f5]; rfl) h3
   have hrel := rel_init (w := w) (s := reverseSubBlocks (Rebuild.new 0 none .zero (some prevAnal))) []
-    (by rw [f1]; rfl) (by rw [f3]; rfl) (by rw [f2]; rfl) (by rw [f8]; rfl) (by rw [f7]; rfl) env
-  have hS := hsim _ _ _ hrel
+    (by rw [f1]; rfl) (by rw [f3]; rfl) (by rw [f2]; rfl) (by rw [f8]; rfl) (by rw [f7]; rfl)
+    (by rw [f5]; rfl) env
+  have hS := (hsim _ _ _ hrel).1
   have hinsts : (if done = true then { s' with shift := s'.shift + b.shift } else s').insts = new := by
     have : s'.insts = new := by rw [hnew, f10]; rfl
     split <;> exact this
